@@ -103,6 +103,36 @@ fn build_full(cap0: usize, st: &mut LimitStats) -> Result<Full, Vio> {
     Ok(Full { w, tracked, next_uid: MAX as u32 + 1, issued_late: BTreeSet::new(), dead: Vec::new() })
 }
 
+/// Whole-archetype accessors on a state with `len` entities (called with exactly 2^24): they must work at the limit like
+/// anywhere else (a clean panic or a wrong length here is a violation; without assertions a wrong hint would be UB).
+fn check_accessors(f: &mut Full, at: &str) -> Result<(), Vio> {
+    let n = f.w.lim.len();
+    let r = catch_unwind(AssertUnwindSafe(|| {
+        let a = &mut f.w.lim;
+        let e = a.entities().len();
+        let g = a.get_slice::<Bya>().len();
+        let gm = a.get_slice_mut::<Bya>().len();
+        let b = a.borrow_slice::<Bya>().len();
+        let bm = a.borrow_slice_mut::<Bya>().len();
+        let s = { let s = a.get_all_slices_mut(); (s.entity.len(), s.bya.len()) };
+        let it = a.iter().count();
+        let mut q = 0usize;
+        ecs_iter!(f.w, |_b: &Bya| { q += 1; });
+        let mut qb = 0usize;
+        ecs_iter_borrow!(f.w, |_b: &Bya, _e: &EntityAny| { qb += 1; });
+        [e, g, gm, b, bm, s.0, s.1, it, q, qb]
+    }));
+    match r {
+        Ok(lens) => {
+            if lens.iter().any(|l| *l != n) {
+                return Err(Vio { prop: "C06,C12".into(), oracle: "accessor-length-at-limit".into(), msg: format!("{}: len() = {} but entities / get_slice / get_slice_mut / borrow_slice / borrow_slice_mut / all slices (entity, column) / iter / ecs_iter! / ecs_iter_borrow! report {:?}", at, n, lens) });
+            }
+        }
+        Err(p) => return Err(Vio { prop: "C06,C12".into(), oracle: "accessor-panicked-at-limit".into(), msg: format!("{}: a whole-archetype accessor panicked with len() = {}: {}", at, n, panic_msg(&p)) }),
+    }
+    Ok(())
+}
+
 fn check_tracked(f: &mut Full, at: &str) -> Result<(), Vio> {
     for (uid, e) in f.tracked.clone() {
         let got = f.w.view(e).map(|v| Col::digest(v.component::<Bya>()));
@@ -226,6 +256,7 @@ pub fn run_limit(depth: usize) -> (Vec<Vio>, LimitStats) {
             let r = (|| -> Result<(), Vio> {
                 let mut f = build_full(cap0, &mut st)?;
                 check_tracked(&mut f, "at the limit")?;
+                check_accessors(&mut f, "at the limit")?;
                 // at the limit: create panics, create_within_capacity refuses - both leave everything untouched
                 apply(&mut f, LOp::Create, &mut st)?;
                 apply(&mut f, LOp::CreateWithin, &mut st)?;
